@@ -97,3 +97,30 @@ Example wire_examples :
   decode_cond """abc""" = Some "abc"%string /\ decode_cond "abc" = None /\ decode_cond "W/""abc""" = None
   /\ decode_cond "'abc'" = None /\ decode_cond """a"", ""b""" = None.
 Proof. vm_compute. repeat split. Qed.
+
+(** * One tag in the four places, for every backend tag *)
+Theorem announce_meets_spec is_print_hi t :
+  let a := announce is_print_hi t in
+  tags_spec_ok t a a a a (match a with Some s => match_back s t | None => None end) = true.
+Proof.
+  unfold announce, tags_spec_ok. destruct (String.eqb t "") eqn:E; [reflexivity|].
+  cbn [ostr_eqb]. rewrite String.eqb_refl. cbn [andb].
+  unfold decode_cond. rewrite etag_roundtrip. cbn [ostr_eqb]. rewrite String.eqb_refl. cbn [andb].
+  unfold match_back, match_etag. rewrite E.
+  assert (Hs : String.eqb (etag_marshal is_print_hi t) "*" = false) by reflexivity.
+  rewrite Hs. unfold decode_cond. rewrite etag_roundtrip. rewrite String.eqb_refl. reflexivity.
+Qed.
+
+Theorem tags_agree_implies_spec is_print_hi t put get head pf :
+  tags_agree is_print_hi t put get head pf = true ->
+  tags_spec_ok t put get head pf (match get with Some s => match_back s t | None => None end) = true.
+Proof.
+  unfold tags_agree. intros H.
+  apply andb_prop in H. destruct H as [H Hpf]. apply andb_prop in H. destruct H as [H Hh].
+  apply andb_prop in H. destruct H as [Hp Hg].
+  apply ostr_eqb_eq in Hp, Hg, Hh, Hpf. subst. apply announce_meets_spec.
+Qed.
+
+Theorem cdav_options_unaltered im inm :
+  cdav_options (Some im) (Some inm) = (im, inm) /\ cdav_options None None = (""%string, ""%string).
+Proof. split; reflexivity. Qed.
